@@ -668,7 +668,7 @@ pub fn run(ctx: &Ctx) -> (Acc, Report) {
     let mut acc = ctx.acc();
     let us = universes(ctx.tier);
     let scratch = Scratch::new("c18");
-    let wall_cap = std::time::Duration::from_secs(ctx.tier.pick(45, 600));
+    let wall_cap = std::time::Duration::from_secs(ctx.tier.pick(90, 600));
     let max_depth = ctx.tier.pick(usize::MAX, usize::MAX);
 
     // replay of one history (a witness): the operation labels are re-executed from the empty store
